@@ -11,6 +11,18 @@ Each either closes all goals or fails (so that the next rung of the ladder is tr
 -/
 namespace Arimaa.Gen.Bridge
 
+theorem nat_blt_eq_decide (a b : Nat) : Nat.blt a b = decide (a < b) := by
+  cases h : Nat.blt a b
+  · have : ¬ a < b := by intro hlt; rw [Nat.blt_eq.mpr hlt] at h; cases h
+    simp [this]
+  · simp [Nat.blt_eq.mp h]
+
+theorem nat_ble_eq_decide (a b : Nat) : Nat.ble a b = decide (a ≤ b) := by
+  cases h : Nat.ble a b
+  · have : ¬ a ≤ b := by intro hle; rw [Nat.ble_eq.mpr hle] at h; cases h
+    simp [this]
+  · simp [Nat.ble_eq.mp h]
+
 theorem bv_xor_left_comm (a b c : BitVec 64) : a ^^^ (b ^^^ c) = b ^^^ (a ^^^ c) := by
   rw [← BitVec.xor_assoc, BitVec.xor_comm a b, BitVec.xor_assoc]
 theorem bv_and_left_comm (a b c : BitVec 64) : a &&& (b &&& c) = b &&& (a &&& c) := by
